@@ -16,6 +16,8 @@ def logdet_form(t, M=None):
                 return ("bad", "log(det(M)): the determinant under/overflows for NW in the hundreds although M is positive definite")
             if any(isinstance(y, App) and y.fn in ("numpy.prod", "numpy.product", "math.prod") for y in inner):
                 return ("bad", "log(prod(...)): the product under/overflows like the determinant itself")
+    if isinstance(t, Idx) and isinstance(t.base, App) and t.base.fn in ("numpy.linalg.slogdet",) and t.idx != (tm.ONE,):
+        return ("bad", f"slogdet(M)[{', '.join(map(str, t.idx))}] is not the log-determinant (element 1 is)")
     if isinstance(t, Idx) and isinstance(t.base, App) and t.base.fn in ("numpy.linalg.slogdet",) and t.idx == (tm.ONE,):
         if M is None or (t.base.args and t.base.args[0] == M):
             return ("ok", "slogdet(M)[1]")
